@@ -156,19 +156,20 @@ Excluded(S, r, f, i) ==
   \/ (f = "r.publish_mix" /\ HasItem(S, r, "r.publish", 1))
   \/ (f \in {"r.publish", "r.publish.enabled", "r.publish.direct", "r.publish.managed"} /\ HasItem(S, r, "r.publish_mix", 1))
 
-AddStep(ordered) ==
+\* exhaustive mode: slots are taken in table order (Key strictly increasing)
+AddStep ==
   \E r \in 0 .. Len(p.routes), f \in Scope :
     /\ (r = 0) <=> (RootOfT[f] = "top")
     /\ \E i \in 1 .. (IF IdxRootT[f] = "-" THEN 1 ELSE IMax) :
          LET S == Items(p) IN
-         /\ ordered => Key(r, f, i) > last
+         /\ Key(r, f, i) > last
          /\ ~HasItem(S, r, f, i)
          /\ (FT[f].idx /\ i > 1) => HasItem(S, r, f, i - 1)
          /\ ~Excluded(S, r, f, i)
          /\ AncestorsOpen(S, r, f, i)
          /\ \E x \in VariantsT[f], anc \in AncSeqs(r, Missing(S, r, f, i)) :
               /\ p' = [p EXCEPT !.items = @ \o anc \o << It(r, f, i, x.sp, x.v, x.v2, x.n) >>]
-              /\ last' = (IF ordered THEN Key(r, f, i) ELSE 0)
+              /\ last' = Key(r, f, i)
               /\ depth' = depth + 1
 
 \* Simulation: TLC's simulator computes ALL successors of a state before it picks one, which is hopeless with
@@ -236,7 +237,7 @@ AddRoute ==
 GenNext ==
   IF GenDepth = 0
   THEN /\ depth < K
-       /\ AddStep(TRUE)
+       /\ AddStep
        /\ UNCHANGED <<done, nbase, plan>>
        /\ Emit(p')
   ELSE \/ AddRoute
